@@ -21,6 +21,7 @@ package fundraising
 //@ ensures [C15] bids-in-auction-then-bid-id-order: result1 == nil ==> forall(i, int, forall(j, int, 0 <= i && i < j && j < len(result0.BidList) ==> result0.BidList[i].AuctionId < result0.BidList[j].AuctionId || (result0.BidList[i].AuctionId == result0.BidList[j].AuctionId && result0.BidList[i].Id < result0.BidList[j].Id)))
 //@ ensures [C15] auctions-exported-in-id-order: result1 == nil ==> len(result0.AuctionList) == AuctionSeq && forall(j, int, 0 <= j && j < len(result0.AuctionList) ==> result0.AuctionList[j] == Auction[j])
 //@ ensures [C15] exported-allow-list-passes-validation: result1 == nil ==> genesisValidAB(result0)
+//@ ensures [C15] exported-allow-list-spells-bidders-canonically: result1 == nil ==> genesisCanonAB(result0)
 //@ ensures [C15] exported-instalments-pass-validation: result1 == nil ==> genesisValidVQ(result0)
 //@ ensures [C15] exported-bids-pass-validation: result1 == nil ==> genesisValidBids(result0)
 //@ ensures [C15] exported-auctions-pass-validation: result1 == nil ==> genesisValidAuctions(result0)
@@ -37,6 +38,7 @@ package fundraising
 // the two sequences end at the number of imported auctions / bids per auction.
 //@ func InitGenesis
 //@ requires genesisValidAB(genState) && genesisValidVQ(genState) && genesisValidBids(genState)
+//@ requires genesisCanonAB(genState)
 //@ requires 0 <= AuctionSeq && AuctionSeq + len(genState.AuctionList) < 9223372036854775808
 //@ requires forall(a, uint64, 0 <= BidSeq[a] && BidSeq[a] + len(genState.BidList) < 9223372036854775808)
 //@ modifies Auction, AuctionSeq, AllowedBidder, Bid, BidSeq, VestingQueue, Params, SetT
